@@ -461,9 +461,12 @@ func semCodecImages(w *World, c *Codec, sm *SpecMessage, full bool) []imgResult 
 			continue
 		}
 		var e []imgElem
+		// the elements take their second legal length where they have one: a value of at least two
+		// octets cut by one still has octets to deliver, which is what tells a read that insists on all
+		// of them from one that is content with some
 		if s.Presence == "M" {
 			// cut inside this mandatory element: drop everything after it
-			for _, m := range mandElems(0) {
+			for _, m := range mandElems(1) {
 				e = append(e, m)
 				if m.slot.IE == s.IE {
 					break
@@ -473,7 +476,7 @@ func semCodecImages(w *World, c *Codec, sm *SpecMessage, full bool) []imgResult 
 				continue
 			}
 		} else {
-			o := optElem(s, 0, s.IE)
+			o := optElem(s, 1, s.IE)
 			if o.l == 0 {
 				continue
 			}
